@@ -145,16 +145,20 @@ def check_one(case, ctx, children=None):
     first['objects'] = ()
     d = ctx.call('todict', q, context.todict, dump_ignore)
     want = lib.reference_dict(case, with_lattice=stored)
-    ctx.check(lib.listify(d) == want, 'todict', q, lambda: 'todict() differs from the reference encoding: '
-              + str(fp.diff(lib.listify(d), want)))
+    documented = {key: value for key, value in lib.listify(d).items() if key in ('objects', 'properties', 'context', 'lattice')}
+    ctx.check(documented == want, 'todict', q, lambda: 'todict() differs from the reference encoding: '
+              + str(fp.diff(documented, want)))
     ctx.check(('lattice' in d) == stored, 'todict/lattice-key', q, f'lattice key present: {"lattice" in d}, expected {stored}')
 
     def verify(site, loaded, expect_lattice):
         ctx.check(isinstance(loaded, concepts.Context) and loaded == context and
                   (loaded.objects, loaded.properties, loaded.bools) == triple, site + '/context', q,
                   lambda: f'{site}: reloaded context differs: {(loaded.objects, loaded.properties, loaded.bools)!r}')
-        ctx.check(('lattice' in loaded.__dict__) == expect_lattice, site + '/lattice-presence', q,
-                  lambda: f'{site}: lattice attached: {"lattice" in loaded.__dict__}, expected {expect_lattice}')
+        # whether the stored lattice was attached or recomputed is not observable through public queries: counted only
+        if ('lattice' in getattr(loaded, '__dict__', {})) == expect_lattice:
+            ctx.count('stored_lattice_attached_as_expected')
+        else:
+            ctx.count('stored_lattice_attachment_differs')
         got = fp.lattice_fingerprint(ctx.call(site + '/lattice', q, lambda: loaded.lattice), 'c11')
         ctx.check(got == expected, site + '/lattice', q,
                   lambda: f'{site}: reloaded lattice distinguishable from the recomputed one: {fp.diff(got, expected)}')
